@@ -224,7 +224,7 @@ class Supercell(PhonopyAtoms):
                 multi = np.diagonal(snf.D)
             else:
                 P = None
-                multi = np.diagonal(mat)
+                multi = np.abs(np.diagonal(mat))
             trim_frame = np.eye(3)
 
         sur_cell, u2sur_map = self._get_simple_supercell(unitcell, multi, P)
